@@ -1,6 +1,6 @@
 """C19: a request with a timeout resolves by its deadline and cleans up (level: other)."""
 import re
-from core import norm, L_call, L_variant, arms, assigns_to_return, closure_arg_of, sig, const_of, CallSite, layer_stack, split_type_args
+from core import norm, L_call, L_variant, arms, assigns_to_return, closure_arg_of, sig, const_of, CallSite, layer_stack, split_type_args, AbsPaths, field_where, fields_of
 from mir import op_place
 import pool2
 import c13
@@ -34,17 +34,24 @@ def C19_1(ctx, facts):
     for (b, i, s) in aggs:
         r = s["r"]
         ops = dict(zip(r["fields"], r["ops"]))
-        r0 = call.roots(ops["inner"], through_calls=False)
+        fi0 = [n for (n, t) in fields_of(facts, TF) if t == "F"]
+        r0 = call.roots(ops[fi0[0]], through_calls=False) if len(fi0) == 1 else set()
         ctx.check(any(x.kind == "call" and norm(x.site.decl or x.site.name).endswith("Service::call") for x in r0), "Timeout::call|wraps-inner-call", "the future wraps self.inner.call(req) directly",
                   "inner future roots %s" % sorted(map(repr, r0)), call.where(b))
-        rt = call.roots(ops["timeout"])
+        ft = field_where(facts, TF, lambda t: t.endswith("tokio::time::Sleep"))
+        fi = [n for (n, t) in fields_of(facts, TF) if t == "F"]
+        rt = call.roots(ops[ft[0]]) if len(ft) == 1 else set()
         sl_ = [x for x in rt if x.kind == "call" and x.site.is_("tokio::time::sleep", "tokio::time::sleep::sleep")]
         ctx.check(bool(sl_), "TimeoutFuture::new|timer-created", "the timer is tokio::time::sleep(..), created when the request is issued", "timer roots %s" % sorted(map(repr, sig(rt))), call.where(b))
+        T = "service::timeout::Timeout"
+        dur_f = field_where(facts, T, lambda t: t.endswith("time::Duration"))
+        err_f = field_where(facts, T, lambda t: ("fn()" in t or "Fn(" in t) and "PhantomData" not in t)
         for x in sl_:
             r2 = call.roots(x.site.args[0])
-            ctx.check(any(y.kind == "arg" and y.desc == "self.timeout" for y in r2), "Timeout::call|duration", "the duration is the layer's", "duration roots %s" % sorted(map(repr, sig(r2))), x.site.where())
-        r1 = call.roots(ops["error"]) if "error" in ops else set()
-        ctx.check(any(x.kind == "arg" and x.desc.startswith("self.error") for x in r1), "Timeout::call|error-fn", "the error constructor is the layer's", "error roots %s" % sorted(map(repr, sig(r1))), call.where(b))
+            ctx.check(len(dur_f) == 1 and any(y.kind == "arg" and y.desc == "self." + dur_f[0] for y in r2), "Timeout::call|duration", "the duration is the layer's", "duration roots %s" % sorted(map(repr, sig(r2))), x.site.where())
+        fe = field_where(facts, TF, lambda t: ("fn()" in t or "Fn(" in t) and "PhantomData" not in t)
+        r1 = call.roots(ops[fe[0]]) if len(fe) == 1 and fe[0] in ops else set()
+        ctx.check(len(err_f) == 1 and any(x.kind == "arg" and x.desc.startswith("self." + err_f[0]) for x in r1), "Timeout::call|error-fn", "the error constructor is the layer's", "error roots %s" % sorted(map(repr, sig(r1))), call.where(b))
     poll = facts.method(TF, "Future", "poll")
     sl = [c for c in poll.calls() if c.matches(r"tokio::time::(sleep|sleep_until|timeout)")]
     ctx.check(not sl, "TimeoutFuture::poll|no-timer-creation", "no timer is created while polling (the deadline is fixed at issue time)", "a timer is created inside poll: the deadline moves with every poll", sl[0].where() if sl else None)
@@ -56,11 +63,16 @@ def C19_1(ctx, facts):
 
 
 def C19_2(ctx, facts):
-    f = facts.method(TF, "Future", "poll")
+    """TimeoutFuture::poll as a decision table (abstract evaluation of the expanded unit; the two polls are told apart by the
+    type of their receiver: tokio's Sleep is the timer, the other one the inner future):
+      inner Ready(x)            -> Ready(x), unchanged, the timer is not even polled (a ready result wins over the deadline)
+      inner Pending, timer Ready -> Ready(Err(<configured error>))
+      both Pending               -> Pending (and both were polled with the task context: E-WAKER)."""
+    f = facts.unit(facts.method(TF, "Future", "poll"), expand=True)
     ctx.touched(f)
-    import c07
-    ip = c07.polls_of_field(f, "inner")
-    tp = c07.polls_of_field(f, "timeout")
+    polls = [c for c in f.calls() if norm(c.decl or c.name).split("::")[-1] == "poll" and c.args]
+    tp = [c for c in polls if "tokio::time::Sleep" in (c.t.get("argtys") or [""])[0]]
+    ip = [c for c in polls if c not in tp]
     ctx.floor("TimeoutFuture::poll|inner-poll", len(ip), 1, "poll of the inner future")
     ctx.floor("TimeoutFuture::poll|timer-poll", len(tp), 1, "poll of the timer")
     for c in tp:
@@ -71,32 +83,48 @@ def C19_2(ctx, facts):
     for c in ip + tp:
         ok = any(r.kind == "arg" and getattr(r, "index", None) == cx for a in c.args for r in f.roots(a, through_calls=False))
         ctx.check(ok, "TimeoutFuture::poll|cx|%s" % ("inner" if c in ip else "timer"), "polled with the task context", "polled without cx", c.where())
-    inner_ready = lambda lab: lab.kind == "variant" and lab.variants == {"Ready"} and f.call_defining(lab.place["l"]) is not None and f.call_defining(lab.place["l"]).bb in {x.bb for x in ip}
-    timer_ready = lambda lab: lab.kind == "variant" and lab.variants == {"Ready"} and f.call_defining(lab.place["l"]) is not None and f.call_defining(lab.place["l"]).bb in {x.bb for x in tp}
-    for (k, b, x) in assigns_to_return(f, f.live):
-        if k != "stmt" or x["r"].get("v") != "Ready":
-            continue
-        rr = f.roots(x["r"]["ops"][0], through_calls=False)
-        from_inner = any(r.kind == "call" and r.site.bb in {c.bb for c in ip} for r in rr)
-        if from_inner:
-            ok = all((r.kind == "call" and r.site.bb in {c.bb for c in ip}) for r in rr if r.kind == "call")
-            g, w = f.guarded(b, inner_ready)
-            ctx.check(ok and g, "TimeoutFuture::poll|inner-result-unchanged", "the inner Ready(x) is returned as Ready(x), unchanged", "inner result is transformed / returned on another edge", f.where(b))
-        else:
-            g, w = f.guarded(b, timer_ready)
-            is_err = False
-            d = f.unique_def(op_place(x["r"]["ops"][0])["l"]) if op_place(x["r"]["ops"][0]) else None
-            if d and d[0] == "stmt" and d[3]["r"].get("v") == "Err":
-                er = f.roots(d[3]["r"]["ops"][0])
-                is_err = any("error" in r.desc for r in er if r.kind == "arg") or any(r.kind == "call" and "project" in norm(r.site.name) for r in er)
-            ctx.check(g and is_err, "TimeoutFuture::poll|timeout-error-on-deadline", "Err((error)()) is produced only on the timer's Ready edge", "the timeout error can be produced before the deadline / is not the configured error", f.where(b), f.path_desc(w))
+    is_timer = lambda site: "tokio::time::Sleep" in (site.t.get("argtys") or [""])[0]
+    RES = ("const", "INNER_RESULT")
+    ERR = ("const", "CONFIGURED_ERROR")
+    tpb = {c.bb for c in tp}
+    rows = 0
+    for inner in ("Ready", "Pending"):
+        for timer in (("Ready", "Pending") if inner == "Pending" else (None,)):
+            def poll_oracle(site, vals, inner=inner, timer=timer):
+                if is_timer(site):
+                    return ("variant", "Ready", ((0, ("variant", "()", ())),)) if timer == "Ready" else ("variant", "Pending", ())
+                return ("variant", "Ready", ((0, RES),)) if inner == "Ready" else ("variant", "Pending", ())
+            oracles = [(r"Future>::poll$|Future::poll$", poll_oracle),
+                       (r"ops::Fn.*::call$|FnOnce.*::call_once$|FnMut.*::call_mut$", lambda site, vals: ERR)]
+            try:
+                outs = AbsPaths(f, oracles=oracles).outcomes(observe_blocks=tpb)
+            except AbsPaths.Undecided as e:
+                ctx.undecided("TimeoutFuture::poll|row|%s,%s" % (inner, timer), str(e), f.where())
+                continue
+            rows += 1
+
+            def show(v):
+                if v is None or v[0] != "variant":
+                    return "?"
+                if v[1] != "Ready":
+                    return v[1]
+                x = dict(v[2]).get(0)
+                if x == RES:
+                    return "Ready(inner result)"
+                if x is not None and x[0] == "variant" and x[1] == "Err":
+                    return "Ready(Err(%s))" % ("configured error" if dict(x[2]).get(0) == ERR else "?")
+                return "Ready(?)"
+            got = sorted({(show(v), bool(vis)) for (v, vis) in outs})
+            if inner == "Ready":
+                exp, txt = [("Ready(inner result)", False)], "a ready inner result is returned unchanged; the timer is not consulted"
+            elif timer == "Ready":
+                exp, txt = [("Ready(Err(configured error))", True)], "when the deadline has passed and the inner future is still pending the configured error is returned"
+            else:
+                exp, txt = [("Pending", True)], "while both are pending the future is Pending, with the timer polled (its waker wakes the task at the deadline)"
+            ctx.check(got == exp, "TimeoutFuture::poll|row|inner=%s,timer=%s" % (inner, timer), txt,
+                      "inner %s, timer %s gives %s (answer, timer polled); expected %s" % (inner, timer, got, exp), f.where())
+    ctx.floor("TimeoutFuture::poll|table-rows", rows, 3, "scenarios evaluated")
     n = pool2.waker_rule(ctx, f, "TimeoutFuture::poll")
-    ctx.floor("TimeoutFuture::poll|pending", n, 1, "Pending return")
-    # the Pending return is on the *timer's* Pending edge (so the deadline wakes the task)
-    for (b, i, s) in f.aggregates("Poll", "Pending"):
-        g, w = f.guarded(b, lambda lab: lab.kind == "variant" and lab.variants == {"Pending"} and f.call_defining(lab.place["l"]) is not None and f.call_defining(lab.place["l"]).bb in {x.bb for x in tp})
-        ctx.check(g, "TimeoutFuture::poll|pending-after-timer", "Pending is returned only after the timer was polled (its waker is registered: the deadline wakes the task)",
-                  "Pending can be returned without the timer having registered the waker", f.where(b), f.path_desc(w))
 
 
 def C19_3_4(ctx, facts):
